@@ -33,10 +33,16 @@ package main
 //     is in no configuration (and is not under one of the never-set tags verif / tablegen / ignore) stops
 //     the translator.
 //
+//   - local aliases, flow-insensitively: a local variable (of a type that can share memory) some
+//     assignment, definition or range clause of which takes its value from an expression rooted at a
+//     package-level variable is itself rooted there (`p := one; p.SetInt64(0)`, `t := table[:]; t[0] = 1`);
+//     assigning to / taking the address of the local variable ITSELF is not a fact.
+//
 // NOT covered (documented in Props/C17.lean as well): a pointer, slice or map obtained from a
-// package-level variable and stored in a local variable or passed to a callee and written there
-// (`p := one; p.SetInt64(0)`, `f(table[:])`) — address-taking and array slicing are at least LISTED
-// (packageLevelAddrTaken); multi-result accessors; unsafe; reflection; assembly.
+// package-level variable and passed to a callee (as argument or receiver-less parameter) or stored in a
+// struct field / returned through a multi-result function and written there (`f(table[:])`,
+// `x.Add(one, one)` is fine only because math/big does not write its operands) — address-taking and
+// array slicing are at least LISTED (packageLevelAddrTaken); unsafe; reflection; assembly.
 //
 // Before emitting, the extractor is run on a built-in fixture (testdata/gofacts_fixture, embedded) that
 // plants one instance of every form above and of every benign look-alike; the translator refuses to
@@ -279,6 +285,7 @@ type gfWorld struct {
 	l        *gfLoader
 	pkgs     []*gfPkg
 	accessor map[*types.Func]*types.Var
+	alias    map[*types.Var]*types.Var // local variable → the package-level variable it may point into
 	initOnly map[*types.Func]bool
 	out      *gfFacts
 }
@@ -337,7 +344,14 @@ func (w *gfWorld) root(p *gfPkg, e ast.Expr) *types.Var {
 	for {
 		switch x := e.(type) {
 		case *ast.Ident:
-			return gfPkgVar(info.ObjectOf(x))
+			obj := info.ObjectOf(x)
+			if v := gfPkgVar(obj); v != nil {
+				return v
+			}
+			if lv, ok := obj.(*types.Var); ok {
+				return w.alias[lv] // a local variable that was assigned something rooted at a package-level variable
+			}
+			return nil
 		case *ast.SelectorExpr:
 			if id, ok := x.X.(*ast.Ident); ok {
 				if _, isPkg := info.Uses[id].(*types.PkgName); isPkg {
@@ -448,7 +462,7 @@ func (w *gfWorld) varName(p *gfPkg, v *types.Var) string {
 // expression rooted at a package-level variable (to a fixpoint, so accessors of accessors count)
 func (w *gfWorld) findAccessors() {
 	for changed := true; changed; {
-		changed = false
+		changed = w.findAliases()
 		for _, p := range w.pkgs {
 			for _, f := range p.files {
 				for _, d := range f.Decls {
@@ -489,6 +503,57 @@ func (w *gfWorld) findAccessors() {
 			}
 		}
 	}
+}
+
+// local aliases (flow-insensitive, one pass; the caller iterates): a local variable of a type that can
+// share memory, some assignment / definition / range clause of which takes its value from an expression
+// rooted at a package-level variable, is from then on treated as rooted there (`p := one; p.SetInt64(0)`,
+// `t := table[:]; t[0] = 1`, `for _, e := range ptrTable { e.x = 1 }`).  Parameters are NOT tracked.
+func (w *gfWorld) findAliases() bool {
+	changed := false
+	for _, p := range w.pkgs {
+		bind := func(lhs ast.Expr, v *types.Var) {
+			id, ok := gfUnparen(lhs).(*ast.Ident)
+			if !ok || v == nil {
+				return
+			}
+			lv, ok := p.info.ObjectOf(id).(*types.Var)
+			if !ok || lv.IsField() || gfPkgVar(lv) != nil || w.alias[lv] != nil || !gfMayAlias(lv.Type(), 0) {
+				return
+			}
+			w.alias[lv] = v
+			changed = true
+		}
+		for _, f := range p.files {
+			ast.Inspect(f, func(n ast.Node) bool {
+				switch x := n.(type) {
+				case *ast.AssignStmt:
+					if (x.Tok == token.DEFINE || x.Tok == token.ASSIGN) && len(x.Lhs) == len(x.Rhs) {
+						for i := range x.Lhs {
+							bind(x.Lhs[i], w.root(p, x.Rhs[i]))
+						}
+					}
+				case *ast.ValueSpec:
+					if len(x.Names) == len(x.Values) {
+						for i := range x.Names {
+							bind(x.Names[i], w.root(p, x.Values[i]))
+						}
+					}
+				case *ast.RangeStmt:
+					if v := w.root(p, x.X); v != nil {
+						if x.Key != nil {
+							bind(x.Key, v)
+						}
+						if x.Value != nil {
+							bind(x.Value, v)
+						}
+					}
+				}
+				return true
+			})
+		}
+	}
+	return changed
 }
 
 func gfFuncName(fd *ast.FuncDecl) string {
@@ -616,6 +681,13 @@ func (w *gfWorld) findInitOnly(p *gfPkg) {
 
 func (w *gfWorld) add(f gfFact) { w.out.facts[f] = true }
 
+// is e (parentheses removed) a plain local variable?  Assigning to, or taking the address of, a local alias
+// itself does not touch the package-level variable it points into.
+func (w *gfWorld) bareLocal(p *gfPkg, e ast.Expr) bool {
+	id, ok := gfUnparen(e).(*ast.Ident)
+	return ok && gfPkgVar(p.info.ObjectOf(id)) == nil
+}
+
 func (w *gfWorld) noteWrite(p *gfPkg, target ast.Expr, at token.Pos, fn string) {
 	if v := w.root(p, target); v != nil {
 		w.add(gfFact{kind: "write", where: w.where(at), v: w.varName(p, v), third: fn})
@@ -662,23 +734,27 @@ func (w *gfWorld) walk(p *gfPkg, body ast.Node, fn string) {
 			if x.Tok != token.DEFINE { // := only ever declares or re-assigns variables of a function scope
 				w.out.seenAsg[w.posKey(x.Pos())] = true
 				for _, lhs := range x.Lhs {
-					w.noteWrite(p, lhs, x.Pos(), fn)
+					if !w.bareLocal(p, lhs) {
+						w.noteWrite(p, lhs, x.Pos(), fn)
+					}
 				}
 			}
 		case *ast.IncDecStmt:
 			w.out.seenAsg[w.posKey(x.Pos())] = true
-			w.noteWrite(p, x.X, x.Pos(), fn)
+			if !w.bareLocal(p, x.X) {
+				w.noteWrite(p, x.X, x.Pos(), fn)
+			}
 		case *ast.RangeStmt:
 			if x.Tok == token.ASSIGN {
 				w.out.seenAsg[w.posKey(x.Pos())] = true
 				for _, e := range []ast.Expr{x.Key, x.Value} {
-					if e != nil {
+					if e != nil && !w.bareLocal(p, e) {
 						w.noteWrite(p, e, x.Pos(), fn)
 					}
 				}
 			}
 		case *ast.UnaryExpr:
-			if x.Op == token.AND {
+			if x.Op == token.AND && !w.bareLocal(p, x.X) {
 				w.noteAddr(p, x.X, x.Pos(), fn)
 			}
 		case *ast.SliceExpr:
@@ -866,7 +942,7 @@ func gfRun(fsys fs.FS, osRoot, modPath string) *gfFacts {
 	for _, cfg := range cfgs {
 		l := &gfLoader{fsys: fsys, osRoot: osRoot, modPath: modPath, cfg: cfg, fset: gfFset, std: gfStd(),
 			pkgs: map[string]*gfPkg{}, other: map[string]*types.Package{}, busy: map[string]bool{}, used: map[string]bool{}}
-		w := &gfWorld{l: l, accessor: map[*types.Func]*types.Var{}, initOnly: map[*types.Func]bool{}, out: out}
+		w := &gfWorld{l: l, accessor: map[*types.Func]*types.Var{}, alias: map[*types.Var]*types.Var{}, initOnly: map[*types.Func]bool{}, out: out}
 		for _, d := range dirs {
 			// a directory all of whose files are excluded in this configuration is skipped
 			if fl, _ := l.parseDir(fsys, d, d); len(fl) == 0 {
@@ -977,7 +1053,7 @@ func gfSelfTest(fsys fs.FS) (int, *gfFacts, []string) {
 			bad = append(bad, "wrongly classified accessor: "+strings.Replace(a, "\x00", " -> ", 1))
 		}
 	}
-	if len(want) < 70 || cases < 110 {
+	if len(want) < 80 || cases < 130 {
 		bad = append(bad, fmt.Sprintf("fixture too small: %d planted facts, %d cases", len(want), cases))
 	}
 	if len(got.seenCalls) == 0 || len(got.seenAsg) == 0 || len(got.seenLits) == 0 {
